@@ -546,6 +546,23 @@ def replay_file(path) -> int:
         if bad:
             print(f'VIOLATION property={pid} replay={path}')
         return 1 if bad else 0
+    if str(d.get('task', '')).startswith(('native:', 'ground:')):
+        # a violation found by a bounded / ground task: run that task again on the current tree and look for
+        # the same witness
+        kind, name = d['task'].split(':')[0], d['task'].split(':')[1]
+        t = next((t for t in list(prop.tasks) + list(prop.bounded) if t.kind == kind and t.name == name), None)
+        if t is None:
+            print('replay: the task of this violation is no longer registered:', d['task'])
+            return 0
+        r = run_task((t.kind, t.name, t.kw, prop.modules, os.environ.get('VERIF_TIER', 'quick'),
+                      int(os.environ.get('VERIF_SEED', '0') or 0)))
+        same = [v for v in r.get('violations', []) if v.get('witness') == d.get('witness')]
+        print('replay:', 'still violated' if same else 'not reproduced', '-', d.get('witness'))
+        for v in same[:1]:
+            print('   ', v.get('what'))
+        if same:
+            print(f'VIOLATION property={pid} replay={path}')
+        return 1 if same else 0
     if not rep.get('inputs_pickle'):
         print('replay file carries no concrete input (no-failing-input-found); obligation:',
               (d.get('obligation') or {}).get('name'))
